@@ -23,6 +23,7 @@ package goldilocks
 //@ func MulAddHint(_ *big.Int, inputs []*big.Int, results []*big.Int) (err error)
 //@   props C05 C07 C02
 //@   plain nopanic
+//@   modifies results
 //@   requires len(inputs) == 3 && len(results) == 2
 //@   requires forall(k, 0, 3, 0 <= inputs[k] && inputs[k] < P)
 //@   ensures err == nil
@@ -32,6 +33,7 @@ package goldilocks
 //@ func ReduceHint(_ *big.Int, inputs []*big.Int, results []*big.Int) (err error)
 //@   props C05 C07 C02
 //@   plain nopanic
+//@   modifies results
 //@   requires len(inputs) == 1 && len(results) == 2
 //@   requires 0 <= inputs[0]
 //@   ensures err == nil
@@ -41,6 +43,7 @@ package goldilocks
 //@ func InverseHint(_ *big.Int, inputs []*big.Int, results []*big.Int) (err error)
 //@   props C05 C07 C02
 //@   plain nopanic
+//@   modifies results
 //@   requires len(inputs) == 1 && len(results) == 1
 //@   requires 0 <= inputs[0] && inputs[0] < P
 //@   ensures err == nil
@@ -50,6 +53,7 @@ package goldilocks
 //@ func SplitLimbsHint(_ *big.Int, inputs []*big.Int, results []*big.Int) (err error)
 //@   props C05 C06 C02
 //@   plain nopanic
+//@   modifies results
 //@   requires len(inputs) == 1 && len(results) == 2
 //@   requires 0 <= inputs[0] && inputs[0] < P
 //@   ensures err == nil
